@@ -10,6 +10,7 @@ import (
 	"fmt"
 	"os"
 	"os/exec"
+	"path/filepath"
 		"runtime"
 	"strings"
 	"sync"
@@ -286,6 +287,35 @@ func raceProbe(h *rt.H) {
 	}
 }
 
+// raceLogToOracle: race reports the detector wrote while the table/random cases ran in THIS process.
+func raceLogToOracle(h *rt.H) {
+	logp := os.Getenv("VERIF_C34_RACELOG")
+	if logp == "" {
+		return
+	}
+	files, _ := filepath.Glob(logp + ".*")
+	for _, f := range files {
+		b, _ := os.ReadFile(f)
+		os.Remove(f)
+		rep := string(b)
+		if !strings.Contains(rep, "DATA RACE") {
+			continue
+		}
+		sig := "data-race"
+		if strings.Contains(rep, "authorizer.go") {
+			sig = "data-race-authorizer"
+		}
+		var lines []string
+		for _, l := range strings.Split(rep, "\n") {
+			if (strings.Contains(l, ".go:") || strings.Contains(l, "DATA RACE") || strings.Contains(l, "rite at") || strings.Contains(l, "ead at")) && len(lines) < 12 {
+				lines = append(lines, strings.TrimSpace(l))
+			}
+		}
+		h.OracleFail(sig, "the race detector reported a data race while the harness ran its cases on the real AuthorizeTierOperation", map[string]any{"report": lines})
+		h.Count("race-in-cases")
+	}
+}
+
 func clip(s string, n int) string {
 	if len(s) > n {
 		return s[:n] + "..."
@@ -301,8 +331,27 @@ func main() {
 		probeMain()
 		return
 	}
+	if raceEnabled && os.Getenv("VERIF_C34_RACELOG") == "" {
+		// Re-run ourselves with the race detector logging to a file and not changing the exit code, so that a
+		// race seen during the table run becomes an oracle failure with the report instead of a bare exit 66.
+		self, err := os.Executable()
+		if err == nil {
+			logp := filepath.Join(os.TempDir(), fmt.Sprintf("c34race-%d", os.Getpid()))
+			cmd := exec.Command(self, os.Args[1:]...)
+			cmd.Env = append(os.Environ(), "VERIF_C34_RACELOG="+logp, "GORACE=exitcode=0 log_path="+logp)
+			cmd.Stdout, cmd.Stderr = os.Stdout, os.Stderr
+			err = cmd.Run()
+			if ee, ok := err.(*exec.ExitError); ok {
+				os.Exit(ee.ExitCode())
+			} else if err != nil {
+				panic(err)
+			}
+			return
+		}
+	}
 	h := rt.New()
 	defer h.Close()
+	defer raceLogToOracle(h)
 	h.Rule = "exhaustive: 6^3 answer triples (decision x error) x 6 release orders for an ordinary name, 6^3 x 1 for the name '<tier>.*', plus no-authorizer / no-attributes cases; then random repeats; " +
 		"distinct = distinct op line; non-trivial = authorizer present and attributes readable"
 	run := func(ops []string, tag string) {
